@@ -17,6 +17,30 @@ def classify(root, d):
     return "%s|at=%s" % (sym, tail)
 
 
+def shuffle_keys(j, rng):
+    """Same JSON value with object keys in another order (hooks must not depend on key order)."""
+    if isinstance(j, dict):
+        items = [(k, shuffle_keys(v, rng)) for k, v in j.items()]
+        if rng.random() < 0.5:
+            items.reverse()
+        else:
+            rng.shuffle(items)
+        return dict(items)
+    if isinstance(j, list):
+        return [shuffle_keys(x, rng) for x in j]
+    return j
+
+
+def spoil(j):
+    """A cheap metamodel-invalid variant of j (history: an earlier failing call in the process)."""
+    if isinstance(j, dict) and j:
+        k = next(iter(j))
+        out = dict(j)
+        out[k] = {"__verif_bad__": [None]} if not isinstance(j[k], dict) else 12345
+        return out
+    return {"__verif_bad__": 1}
+
+
 def shard(i, n, args):
     mode, tier = args[0], args[1]
     seed = common.seed()
@@ -35,6 +59,10 @@ def shard(i, n, args):
     sigs = set()
     pairs = set()
     fails = res["failures"]
+    res["history"] = {"shuffled_key_order": 0, "after_a_failing_call": 0, "repeated_call": 0}
+    from .gen import rng_for as _rf
+
+    hrng = _rf(seed, "rt-history", i)
     attrs_seen = set()
 
     def fail(key, wit):
@@ -68,7 +96,22 @@ def shard(i, n, args):
                     pairs.add((site, alt))
                 if len(res["samples"]) < 2 and res["cases"] % 97 == 1:
                     res["samples"].append({"root": root.label, "case": lab, "json": j})
+                variant = res["cases"] % 6
+                if variant == 1:
+                    j = shuffle_keys(j, hrng)
+                    res["history"]["shuffled_key_order"] += 1
+                elif variant == 3:
+                    try:  # history: a failing call right before
+                        py.conv.structure(spoil(j), root.cls)
+                    except Exception:
+                        pass
+                    res["history"]["after_a_failing_call"] += 1
                 out = py.roundtrip(j, root.cls)
+                if variant == 5 and out[0] == "ok":
+                    again = py.roundtrip(j, root.cls)
+                    res["history"]["repeated_call"] += 1
+                    if again[0] != "ok" or again[1] != out[1]:
+                        fail("second call on the same input gives another result", {"root": root.label, "case": lab, "json": j, "first": out[1], "second": again[1]})
                 if mode == "C01":
                     if out[0] != "ok":
                         key = "%s|%s" % (out[0], out[1])
@@ -166,6 +209,7 @@ def merge(rep, results, mode):
         "union_occurrence_alternative_pairs_driven": len(pairs),
         "hook_events": {k: dict(v) for k, v in sorted(table.items())},
         "hooks_registered": len(names),
+        "case_histories": {k: sum(r["history"][k] for r in results) for k in ("shuffled_key_order", "after_a_failing_call", "repeated_call")},
         "hooks_fired": len(fired),
         "hooks_never_fired": never,
         "samples": samples[:4] or [{"note": "none"}],
